@@ -393,7 +393,11 @@ class Transformer(ast.NodeTransformer):
         k = self.loop_counter[-1]
         real_mod = "yaw" + self.modname[len(PKG):]
         site = f"{real_mod}:{self._qual()}#{k}"
-        SITES[site] = dict(module=real_mod, qualname=self._qual(), ordinal=k, kind=kind, lineno=node.lineno)
+        try:
+            head = ast.unparse(node.iter if kind == "for" else node.test)
+        except Exception:  # noqa: BLE001
+            head = ""
+        SITES[site] = dict(module=real_mod, qualname=self._qual(), ordinal=k, kind=kind, lineno=node.lineno, head=head)
         return site
 
     def visit_For(self, node):
